@@ -133,6 +133,9 @@ def gen_case(rng, idx, malformed=False):
                 tail += [['request', i], ['cancel', i]]
             if malformed and rng.random() < 0.2:
                 tail.append(['request', i])
+        for _ in range(rng.choice([0, 0, 0, 1, 2])):
+            # cancel of anything: own id again / after delivery, another client's id, an id nobody submitted
+            tail.append(['cancel', rng.choice(ids + [rng.randrange(0, tid + 2), 90 + rng.randrange(5)])])
         rng.shuffle(tail)
         if rng.random() < 0.35:
             tail.insert(rng.randrange(len(tail) + 1), ['disconnect'])
@@ -362,10 +365,22 @@ class Oracle:
                             self.comp_cancelled[i] = True
                             self.cancelled.add((0, self.comp_of_id[i], 0))
             elif what == 'cancel':
-                self.stats['client_cancels'] += 1
-                self.comp_cancelled[ev[3]] = True
-                self.cancelled.add((0, self.comp_of_id[ev[3]], 0))
-                self.classify_cancel_point((0, self.comp_of_id[ev[3]], 0))
+                tid = ev[3]
+                effective = (tid in self.comp_of_id and self.owner_of_id[tid] == c and tid not in self.comp_cancelled
+                             and tid not in self.delivered)
+                if effective:
+                    self.stats['client_cancels'] += 1
+                    self.comp_cancelled[tid] = True
+                    self.cancelled.add((0, self.comp_of_id[tid], 0))
+                    self.classify_cancel_point((0, self.comp_of_id[tid], 0))
+                else:
+                    self.stats['noop_cancels'] = self.stats.get('noop_cancels', 0) + 1
+                    if extra.get('issued'):
+                        self.report(dict(symptom='foreign_or_dead_cancel_had_effect'), 'acknowledged only', extra['issued'],
+                                    f'client {c} named task {tid}, which is not one of its live tasks, and CANCELs were issued')
+                if not any(lab[0] == 'cli' and lab[1] == c and lab[2] == ['A'] for lab in labels):
+                    self.report(dict(symptom='cancel_not_acknowledged'), 'CANCEL acknowledgement', labels,
+                                f'client {c} would block for ever in Compiler.cancel({tid})')
             elif what == 'disconnect':
                 self.stats['disconnects'] += 1
                 self.disconnected.add(c)
@@ -456,6 +471,10 @@ class Oracle:
                 for conn, ids in s.clients.items():
                     if tid in ids:
                         self.report(dict(symptom='server_client_entry_left'), 'absent', dict(task=tid), 'server keeps a cancelled task id in clients[conn]')
+                if tid in s.tasks or mb in s.mailbox_to_task_dict:
+                    self.report(dict(symptom='server_task_entry_left'), 'absent', dict(task=tid, in_tasks=tid in s.tasks,
+                                in_m2t=mb in s.mailbox_to_task_dict),
+                                'server keeps tasks / mailbox_to_task_dict entries of a cancelled compilation task')
         for c in self.disconnected:
             conn = sim.clients[c]
             left = dict(clients=conn in s.clients, tasks=[t for t, (mb, cc) in s.tasks.items() if cc is conn],
@@ -555,9 +574,9 @@ def run_case(case):
                         act = plan[0]
                         ok = True
                         if act[0] == 'cancel':
-                            # only cancel what the server still holds a mailbox for (the other cases are D4 / C13)
-                            ok = (act[1] in orc.comp_of_id and act[1] not in orc.comp_cancelled
-                                  and act[1] not in orc.delivered and c not in orc.disconnected)
+                            # any id may be named at any time by a connected client (own live task: cancelled;
+                            # anything else: only acknowledged)
+                            ok = c not in orc.disconnected
                         elif act[0] in ('request', 'submit', 'disconnect'):
                             ok = c not in orc.disconnected
                             if act[0] == 'request' and not case['malformed']:
@@ -811,7 +830,6 @@ def run(ctx: vf.Ctx):
         '(the two threads of a worker are interleaved at handler granularity, not statement granularity)',
         'channels are FIFO per direction per link (multiprocessing.Connection); flat topology (no managers) in the model',
         'the random assignment of schedule_tasks and python set iteration order are replayed from the implementation',
-        'client cancel of finished/unknown ids (D4, property C13) is outside the corresponded stream; probed separately',
     ]
     ctx.trusted = ['Coq 8.16.1 kernel + vm_compute', 'ExtrOcamlBasic extraction, OCaml 4.13.1, coq/extract/cancel_driver.ml',
                    'harness/rtsim_cancel.py (fake connections, recording wrappers, script interpreter)',
@@ -849,7 +867,7 @@ def run(ctx: vf.Ctx):
         ctx.case(('d4', name))
         if exc is not None:
             ctx.violation(dict(D4_SIG, state=name), dict(probe=name, events=evs), 'CANCEL acknowledged or ignored', exc,
-                          f'DetachedServer.handle_cancel_comp_task raises {exc} for {name}; the server loop shuts the runtime down')
+                          f'DetachedServer.handle_cancel_comp_task raises {exc} for {name}; the server loop shuts the runtime down (regression of the D4 fix, /repo 1a66c34)')
     ctx.cov['theorem_scope'] = ('worker + flat-topology server transition system, all schedules; managers and the '
                                 'statement-level thread interleaving are not modelled')
 
